@@ -1,6 +1,7 @@
 /-
   Driver/C04.lean — `c04 mass <nvars> <sizes…> <neq> (<eq>)…`
     eq ::= alg <rhs> | whole <v> <rhs> | idx <v> <i> <rhs> | slice <v> <a|none> <b|none> <rhs>
+          | strided <v> <a|none> <b|none> <step> <rhs> | pick <v> <n> <k…> <rhs>
   answer: `ok <rows> <cols> <r c>…` (triplets sorted, as given to csc_array) | `err <kind>`
 -/
 import SolverzModel.Core.Mass
@@ -24,6 +25,17 @@ partial def parseEqs : Nat → List String → Option (List EqDecl)
   | n+1, "slice" :: v :: a :: b :: r :: rest => do
       let v ← parseNat v; let a ← optInt a; let b ← optInt b; let r ← parseNat r; let es ← parseEqs n rest
       some (⟨some (.slice v a b), r⟩ :: es)
+  | n+1, "strided" :: v :: a :: b :: st :: r :: rest => do
+      let v ← parseNat v; let a ← optInt a; let b ← optInt b; let st ← parseInt st; let r ← parseNat r; let es ← parseEqs n rest
+      some (⟨some (.strided v a b st), r⟩ :: es)
+  | n+1, "pick" :: v :: cnt :: rest => do
+      let v ← parseNat v; let cnt ← parseNat cnt
+      let ks ← (rest.take cnt).mapM parseInt
+      match rest.drop cnt with
+      | r :: rest' => do
+          let r ← parseNat r; let es ← parseEqs n rest'
+          if (rest.take cnt).length = cnt then some (⟨some (.pick v ks), r⟩ :: es) else none
+      | [] => none
   | _, _ => none
 
 def insertSorted (x : Nat × Nat) : List (Nat × Nat) → List (Nat × Nat)
